@@ -114,6 +114,14 @@ func (eval RingPackingEvaluator) extract(ct *Ciphertext, idx map[int]bool, naive
 	// degree until the minimum ring degre is reached
 	tmpCts := make(map[int]*Ciphertext)
 	tmpCts[0] = ct.CopyNew()
+
+	// The splitting and the rotations by X^{-2^{i}} operate in the NTT domain
+	if !tmpCts[0].IsNTT {
+		ringQ := eval.Parameters[logNMax].GetRLWEParameters().RingQ().AtLevel(level)
+		ringQ.NTT(tmpCts[0].Value[0], tmpCts[0].Value[0])
+		ringQ.NTT(tmpCts[0].Value[1], tmpCts[0].Value[1])
+		tmpCts[0].IsNTT = true
+	}
 	for i := 0; i < logNFactor; i++ {
 		t := 1 << i
 
@@ -228,9 +236,16 @@ func (eval RingPackingEvaluator) Split(ctN, ctEvenNHalf, ctOddNHalf *Ciphertext)
 
 	r := eval.Parameters[LogN].GetRLWEParameters().RingQ().AtLevel(ctN.Level())
 
+	// The halves are returned in the NTT domain
+	if !ctTmp.IsNTT {
+		r.NTT(ctTmp.Value[0], ctTmp.Value[0])
+		r.NTT(ctTmp.Value[1], ctTmp.Value[1])
+		ctTmp.IsNTT = true
+	}
+
 	// Maps to smaller ring degree X -> Y = X^{2}
 
-	*ctEvenNHalf.MetaData = *ctN.MetaData
+	*ctEvenNHalf.MetaData = *ctTmp.MetaData
 	SwitchCiphertextRingDegreeNTT(ctTmp.El(), r, ctEvenNHalf.El())
 	ctEvenNHalf.LogDimensions.Cols--
 
@@ -241,7 +256,7 @@ func (eval RingPackingEvaluator) Split(ctN, ctEvenNHalf, ctOddNHalf *Ciphertext)
 			return fmt.Errorf("ctOddNHalf.LogN() must be equal to ctN.LogN()-1")
 		}
 
-		*ctOddNHalf.MetaData = *ctN.MetaData
+		*ctOddNHalf.MetaData = *ctTmp.MetaData
 		r.MulCoeffsMontgomery(ctTmp.Value[0], eval.XInvPow2NTT[LogN][0], ctTmp.Value[0])
 		r.MulCoeffsMontgomery(ctTmp.Value[1], eval.XInvPow2NTT[LogN][0], ctTmp.Value[1])
 		SwitchCiphertextRingDegreeNTT(ctTmp.El(), r, ctOddNHalf.El())
@@ -332,6 +347,15 @@ func (eval RingPackingEvaluator) repack(cts map[int]*Ciphertext, naive bool) (ct
 			XPow2NTT := eval.XPow2NTT[logNMin]
 
 			ringQ := eval.Parameters[logNMin].GetRLWEParameters().RingQ().AtLevel(level)
+
+			// As Pack does, brings the inputs to the NTT domain
+			for _, ct := range tmpCts {
+				if ct != nil && !ct.IsNTT {
+					ringQ.NTT(ct.Value[0], ct.Value[0])
+					ringQ.NTT(ct.Value[1], ct.Value[1])
+					ct.IsNTT = true
+				}
+			}
 
 			for i := 0; i < logNMin; i++ {
 
@@ -436,6 +460,20 @@ func (eval RingPackingEvaluator) Merge(ctEvenNHalf, ctOddNHalf, ctN *Ciphertext)
 	r := eval.Parameters[LogN].GetRLWEParameters().RingQ().AtLevel(ctN.Level())
 
 	ctTmp := NewCiphertext(eval.Parameters[LogN], 1, ctN.Level())
+
+	// The merge operates, and returns its result, in the NTT domain
+	rNHalf := eval.Parameters[LogN-1].GetRLWEParameters().RingQ().AtLevel(ctN.Level())
+	toNTT := func(ct *Ciphertext) *Ciphertext {
+		if ct == nil || ct.IsNTT {
+			return ct
+		}
+		ct = ct.CopyNew()
+		rNHalf.NTT(ct.Value[0], ct.Value[0])
+		rNHalf.NTT(ct.Value[1], ct.Value[1])
+		ct.IsNTT = true
+		return ct
+	}
+	ctEvenNHalf, ctOddNHalf = toNTT(ctEvenNHalf), toNTT(ctOddNHalf)
 
 	*ctN.MetaData = *ctEvenNHalf.MetaData
 	SwitchCiphertextRingDegreeNTT(ctEvenNHalf.El(), r, ctN.El())
